@@ -62,3 +62,11 @@ Definition expected_seg (s : seg) : Z * list N :=
 (* tail: [] or a proper non-empty prefix of a valid frame, delivered as non-RTCM *)
 Definition expected (segs : list seg) (tail : list N) : list (Z * list N) :=
   map expected_seg (merge_junk segs) ++ (match tail with [] => [] | _ => [((-1)%Z, tail)] end).
+
+(* the frame that carries a payload: leader, payload, CRC-24Q of the specification *)
+Definition frame_of_payload (p : list N) : list N :=
+  let n := N.of_nat (length p) in
+  let head := 211 :: (n / 256) :: (n mod 256) :: p in
+  let c := crc24q_spec head in
+  head ++ [(c / 65536); ((c / 256) mod 256); (c mod 256)].
+
